@@ -161,4 +161,416 @@ theorem C04_break_innermost (img : Image) (P0 : Nat) (pre test bodyPre : List In
   apply State.ext' <;> simp
   omega
 
+/-! ## loops seen from their top -/
+
+/-- an assembled loop from its test on: `test; JUMP IF_FALSE →END_LOOP; inner; JUMP →test; END_LOOP` -/
+def loopTail (test inner : List Instr) : List Instr :=
+  test ++ [Instr.jump .ifFalse (inner.length + 2)] ++ inner ++
+    [Instr.jump .always (-((test.length + 1 + inner.length : Nat) : Int))] ++ [Instr.endLoop]
+
+theorem loopCode_eq (pre test inner : List Instr) :
+    loopCode pre test inner = [Instr.loop] ++ pre ++ loopTail test inner := by
+  simp [loopCode, loopTail]
+
+theorem loopTail_length (test inner : List Instr) :
+    (loopTail test inner).length = test.length + 1 + inner.length + 2 := by
+  simp [loopTail]; omega
+
+/-- where the pieces of a loop are, given where its test starts -/
+theorem loopTail_parts {img : Image} {top : Nat} {test b post : List Instr}
+    (h : CodeAt img top (loopTail test (b ++ post))) :
+    CodeAt img top test ∧
+    img.code[top + test.length]? = some (.jump .ifFalse ((b.length + post.length : Nat) + 2)) ∧
+    CodeAt img (top + test.length + 1) b ∧
+    CodeAt img (top + test.length + 1 + b.length) post ∧
+    img.code[top + test.length + 1 + b.length + post.length]? =
+      some (.jump .always (-((test.length + 1 + (b.length + post.length) : Nat) : Int))) ∧
+    img.code[top + test.length + 1 + b.length + post.length + 1]? = some .endLoop := by
+  unfold loopTail at h
+  have h1 := h.left.left.left.left
+  have h2 := h.left.left.left.right.head
+  have h3 := h.left.left.right
+  have h4 := h.left.right.head
+  have h5 := h.right.head
+  simp only [List.length_append, List.length_cons, List.length_nil] at h2 h3 h4 h5
+  refine ⟨h1, h2, ?_, ?_, ?_, ?_⟩
+  · have := h3.left
+    simpa [Nat.add_assoc] using this
+  · have := h3.right
+    simpa [Nat.add_assoc] using this
+  · simpa [Nat.add_assoc] using h4
+  · simpa [Nat.add_assoc] using h5
+
+
+/-- **the body contract.**  `BodyRun img b t u`: started at the first instruction of the body
+`b` in state `t`, the VM reaches `u` just past the body, still running, with the evaluation
+stack as it was and this loop's frame — its hidden variables and recorded stack height — on
+top.  Nothing is assumed about registers, variables, lights, output, or the frames below
+(their dictionaries may change: the body may assign). -/
+structure BodyRun (img : Image) (b : List Instr) (t u : State) : Prop where
+  reach : ∃ k, run img k t = u
+  running : u.status = .running
+  pc : u.pc = t.pc + (b.length : Int)
+  eval : u.eval = t.eval
+  frame : ∀ vars h rest, t.stack = .loop vars h :: rest → ∃ rest', u.stack = .loop vars h :: rest'
+
+/-- a chain of passes: from the loop-top state `s`, pass after pass — `enter` is what the
+loop test does on success, `K` the body, `post` the post-step and back jump — to the loop-top
+state `s'` at which the loop ends; `ts` lists the states in which the body was started -/
+inductive Passes (K : State → State → Prop) (enter post : State → State) :
+    State → List State → State → Prop
+  | done (s : State) : Passes K enter post s [] s
+  | pass {s u s' : State} {ts : List State} : K (enter s) u → Passes K enter post (post u) ts s' →
+      Passes K enter post s (enter s :: ts) s'
+
+/-- the loop test succeeded: `result` is `True`, control is at the body -/
+def enterBody (bodyPc : Nat) (s : State) : State :=
+  { s with pc := (bodyPc : Int), regs := fun r => if r = .result then .bool true else s.regs r }
+
+/-- the loop test failed and `END_LOOP` ran: `result` is `False`, the loop frame is popped -/
+def exitLoop (afterPc : Nat) (s : State) : State :=
+  { s with pc := (afterPc : Int), regs := fun r => if r = .result then .bool false else s.regs r,
+           stack := s.stack.tail }
+
+/-- apply `f` to the hidden variables of the innermost loop frame -/
+def mapTop (f : List (LoopVar × Val) → List (LoopVar × Val)) : List Frame → List Frame
+  | .loop vars h :: rest => .loop (f vars) h :: rest
+  | st => st
+
+/-- `counter := counter - 1` -/
+def decCounter (vars : List (LoopVar × Val)) : List (LoopVar × Val) :=
+  setLV vars .counter ((Val.sub (getLV vars .counter) (.int 1)).getD .none)
+
+/-- the post-step of a counted loop without index variable, back at the loop top -/
+def countPost (topPc : Nat) (u : State) : State :=
+  { u with pc := (topPc : Int), stack := mapTop decCounter u.stack }
+
+theorem counterTest_eq : counterTest =
+    [Instr.push (.loopVar .counter), .pushq (.int 0), .op .gt] ++ [Instr.pop (.reg .result)] := rfl
+
+/-- the loop test of a counted loop: `result := counter > 0`, nothing else changes -/
+theorem run_counterTest (img : Image) (s : State) (top : Nat) (vars : List (LoopVar × Val)) (h : Nat)
+    (rest : List Frame) (c : Rat) (fl : Bool)
+    (hs : s.status = .running) (hpc : s.pc = (top : Int)) (hc : CodeAt img top counterTest)
+    (hst : s.stack = .loop vars h :: rest) (hn : Num (getLV vars .counter) c fl) :
+    run img 4 s =
+      { s with pc := (top : Int) + 4,
+               regs := fun r => if r = .result then .bool (decide (0 < c)) else s.regs r } := by
+  have hgt : binVal .gt (getLV vars .counter) (.int 0) = some (.bool (decide (0 < c))) := by
+    have := num_gt hn (Num.int 0)
+    show Val.cmp .gt _ _ = _
+    simpa using this
+  have := run_pf_reg img [Instr.push (.loopVar .counter), .pushq (.int 0), .op .gt] .result s top _
+    hs hpc (by rw [← counterTest_eq]; exact hc)
+    (pfRun3 s.read s.eval _ _ .gt _ _ _
+      (pfStep_push_lv s s.eval .counter _ (getLoopVar_eq hst _) hn.ne_none) (pfStep_pushq _ _ _) hgt)
+  simp only [List.length_cons, List.length_nil] at this
+  rw [this]
+  apply State.ext' <;> simp
+  omega
+
+
+/-- test succeeded: five steps from the loop top to the body -/
+theorem run_test_enter (img : Image) (s : State) (top n : Nat) (vars : List (LoopVar × Val)) (h : Nat)
+    (rest : List Frame) (c : Rat) (fl : Bool)
+    (hs : s.status = .running) (hpc : s.pc = (top : Int)) (hc : CodeAt img top counterTest)
+    (hj : img.code[top + 4]? = some (.jump .ifFalse ((n : Nat) + 2)))
+    (hst : s.stack = .loop vars h :: rest) (hn : Num (getLV vars .counter) c fl) (hpos : 0 < c) :
+    run img 5 s = enterBody (top + 5) s := by
+  rw [show (5 : Nat) = 4 + 1 from rfl, run_add, run_counterTest img s top vars h rest c fl hs hpc hc hst hn,
+    run_one _ _ (by exact hs),
+    step_jump_ifFalse img _ (top + 4) _ (by exact hs) (by simp) hj]
+  simp only [enterBody, hpos, decide_true, ite_true, Val.truthy]
+  apply State.ext' <;> simp
+  omega
+
+/-- test failed: six steps from the loop top to just past `END_LOOP` -/
+theorem run_test_exit (img : Image) (s : State) (top n : Nat) (vars : List (LoopVar × Val)) (h : Nat)
+    (rest : List Frame) (c : Rat) (fl : Bool)
+    (hs : s.status = .running) (hpc : s.pc = (top : Int)) (hc : CodeAt img top counterTest)
+    (hj : img.code[top + 4]? = some (.jump .ifFalse ((n : Nat) + 2)))
+    (he : img.code[top + 4 + n + 2]? = some .endLoop)
+    (hst : s.stack = .loop vars h :: rest) (hev : s.eval.length = h)
+    (hn : Num (getLV vars .counter) c fl) (hneg : c ≤ 0) :
+    run img 6 s = exitLoop (top + 4 + n + 2 + 1) s := by
+  have hd : decide (0 < c) = false := by
+    have : ¬ 0 < c := by grind
+    simp [this]
+  have h5 : run img 5 s =
+      { s with pc := ((top + 4 + n + 2 : Nat) : Int),
+               regs := fun r => if r = .result then .bool false else s.regs r } := by
+    rw [show (5 : Nat) = 4 + 1 from rfl, run_add,
+      run_counterTest img s top vars h rest c fl hs hpc hc hst hn,
+      run_one _ _ (by exact hs),
+      step_jump_ifFalse img _ (top + 4) _ (by exact hs) (by simp) hj]
+    simp only [hd, ite_true, Val.truthy, Bool.false_eq_true, ite_false]
+    apply State.ext' <;> simp
+    omega
+  rw [show (6 : Nat) = 5 + 1 from rfl, run_add, h5, run_one _ _ (by exact hs),
+    step_endLoop img _ (top + 4 + n + 2) vars h rest (by exact hs) (by rfl) he (by exact hst)]
+  simp only [exitLoop, hst, List.tail_cons, trimEval, ← hev]
+  apply State.ext' <;> simp
+
+theorem loopPost_none_eq : loopPost none =
+    [Instr.push (.loopVar .counter), .pushq (.int 1), .op .sub] ++ [Instr.pop (.loopVar .counter)] := rfl
+
+/-- the counter stays a number when decreased -/
+theorem num_dec {cv : Val} {c : Rat} {fl : Bool} (hn : Num cv c fl) :
+    ∃ cv', Val.sub cv (.int 1) = some cv' ∧ Num cv' (c - 1) fl := by
+  obtain ⟨h1, h2⟩ := num_sub hn (Num.int 1)
+  refine ⟨_, h1, ?_⟩
+  simpa using h2
+
+/-- post-step of a counted loop and the back jump: five steps from the end of the body to the
+loop top, the counter one less -/
+theorem run_post_none (img : Image) (u : State) (pc top : Nat) (vars : List (LoopVar × Val)) (h : Nat)
+    (rest : List Frame) (c : Rat) (fl : Bool)
+    (hs : u.status = .running) (hpc : u.pc = (pc : Int)) (hc : CodeAt img pc (loopPost none))
+    (off : Int) (hj : img.code[pc + 4]? = some (.jump .always off))
+    (hoff : ((pc + 4 : Nat) : Int) + off = (top : Int))
+    (hst : u.stack = .loop vars h :: rest) (hn : Num (getLV vars .counter) c fl) :
+    run img 5 u = countPost top u ∧
+      ∃ cv', (countPost top u).stack = .loop (setLV vars .counter cv') h :: rest ∧ Num cv' (c - 1) fl := by
+  obtain ⟨cv', hsub, hn'⟩ := num_dec hn
+  have hrun := run_pf_lv img [Instr.push (.loopVar .counter), .pushq (.int 1), .op .sub] .counter u pc cv'
+    vars h rest hs hpc (by rw [← loopPost_none_eq]; exact hc) hst
+    (pfRun3 u.read u.eval _ _ .sub _ _ _
+      (pfStep_push_lv u u.eval .counter _ (getLoopVar_eq hst _) hn.ne_none) (pfStep_pushq _ _ _)
+      (by show Val.sub _ _ = _; exact hsub))
+  simp only [List.length_cons, List.length_nil] at hrun
+  have hstk : (countPost top u).stack = .loop (setLV vars .counter cv') h :: rest := by
+    simp [countPost, hst, mapTop, decCounter, hsub]
+  refine ⟨?_, cv', hstk, hn'⟩
+  rw [show (5 : Nat) = 4 + 1 from rfl, run_add, hrun, run_one _ _ (by exact hs),
+    step_jump_always img _ (pc + 4) _ (by exact hs) (by simp; omega) hj]
+  apply State.ext' <;> simp [countPost, hst, mapTop, decCounter, hsub]
+  omega
+
+
+theorem passes_zero_iff {c : Rat} : passes c = 0 ↔ c ≤ 0 := by
+  constructor
+  · intro h
+    apply Classical.byContradiction
+    intro hc
+    have : 0 < c := by grind
+    rw [passes_pos this] at h
+    omega
+  · exact passes_nonpos
+
+/-- **counted loop, from its top.**  `ts` are the body-start states of the passes made. -/
+theorem counted_loop_chain (img : Image) (top : Nat) (b : List Instr)
+    (hc : CodeAt img top (loopTail counterTest (b ++ loopPost none))) :
+    ∀ (s : State) (ts : List State) (s' : State),
+      Passes (BodyRun img b) (enterBody (top + 5)) (countPost top) s ts s' →
+      ∀ (vars : List (LoopVar × Val)) (h : Nat) (rest : List Frame) (c : Rat) (fl : Bool),
+        s.status = .running → s.pc = (top : Int) → s.stack = .loop vars h :: rest →
+        s.eval.length = h → Num (getLV vars .counter) c fl → ts.length = passes c →
+        (∃ k, run img k s = exitLoop (top + (loopTail counterTest (b ++ loopPost none)).length) s') ∧
+        s'.eval = s.eval ∧ s'.status = .running ∧ ∃ vars' rest', s'.stack = .loop vars' h :: rest' := by
+  obtain ⟨hT, hJ, hB, hP, hBk, hE⟩ := loopTail_parts hc
+  have hlen : (loopTail counterTest (b ++ loopPost none)).length = 4 + b.length + 4 + 2 + 1 := by
+    rw [loopTail_length]; simp [counterTest, testOp, loopPost]; omega
+  have hcl : counterTest.length = 4 := rfl
+  have hpl : (loopPost none).length = 4 := rfl
+  rw [hcl, hpl] at hJ hBk hE
+  rw [hcl] at hB hP
+  intro s ts s' hp
+  induction hp with
+  | done s =>
+    intro vars h rest c fl hs hpc hst hev hn hlen'
+    have hneg : c ≤ 0 := passes_zero_iff.1 (by simpa using hlen'.symm)
+    refine ⟨⟨6, ?_⟩, rfl, hs, vars, rest, hst⟩
+    rw [run_test_exit img s top (b.length + 4) vars h rest c fl hs hpc hT hJ
+      (by rw [← hE]; congr 1; omega) hst hev hn hneg, hlen]
+    congr 1; omega
+  | @pass s u s' ts hK hrest ih =>
+    intro vars h rest c fl hs hpc hst hev hn hlen'
+    have hpos : 0 < c := by
+      apply Classical.byContradiction
+      intro hc'
+      have : c ≤ 0 := by grind
+      rw [passes_nonpos this] at hlen'
+      simp at hlen'
+    have henter := run_test_enter img s top (b.length + 4) vars h rest c fl hs hpc hT hJ hst hn hpos
+    obtain ⟨⟨k1, hk1⟩, hur, hupc, huev, hufr⟩ := hK
+    obtain ⟨rest', hust⟩ := hufr vars h rest (by simpa [enterBody] using hst)
+    have hupc' : u.pc = ((top + 4 + 1 + b.length : Nat) : Int) := by
+      rw [hupc]; simp [enterBody]; omega
+    obtain ⟨hpost, cv', hpst, hn'⟩ := run_post_none img u (top + 4 + 1 + b.length) top vars h rest' c fl
+      hur hupc' hP _ (by rw [← hBk]) (by simp; omega) hust hn
+    have hgl : getLV (setLV vars .counter cv') .counter = cv' := getLV_setLV_self _ _ _
+    obtain ⟨⟨k2, hk2⟩, hev2, hs2, hfr2⟩ := ih (setLV vars .counter cv') h rest' (c - 1) fl
+      (by simpa [countPost] using hur) (by simp [countPost]) hpst
+      (by simp only [countPost]; rw [huev]; simpa [enterBody] using hev)
+      (by rw [hgl]; exact hn')
+      (by rw [passes_pos hpos] at hlen'; simpa using hlen')
+    refine ⟨⟨5 + k1 + 5 + k2, ?_⟩, ?_, hs2, hfr2⟩
+    · rw [run_add, run_add, run_add, henter, hk1, hpost, hk2]
+    · rw [hev2]; simp only [countPost]; rw [huev]; simp [enterBody]
+
+
+/-- the universal form of the body contract: from EVERY running state at the body's first
+instruction with a loop frame on top, the body runs to its end as `BodyRun` says.  (A body that
+can fault does not satisfy this; the `…_chain` theorems assume `BodyRun` only for the states
+the loop actually hands to the body.) -/
+def BodyOk (img : Image) (b : List Instr) : Prop :=
+  ∀ t : State, t.status = .running → (∃ pc : Nat, t.pc = (pc : Int) ∧ CodeAt img pc b) →
+    (∃ vars h rest, t.stack = .loop vars h :: rest) → ∃ u, BodyRun img b t u
+
+theorem count_chain_exists (img : Image) (top : Nat) (b : List Instr) (hB : CodeAt img (top + 5) b)
+    (hok : BodyOk img b) :
+    ∀ (p : Nat) (s : State) (vars : List (LoopVar × Val)) (h : Nat) (rest : List Frame),
+      s.status = .running → s.stack = .loop vars h :: rest →
+      ∃ ts s', Passes (BodyRun img b) (enterBody (top + 5)) (countPost top) s ts s' ∧ ts.length = p := by
+  intro p
+  induction p with
+  | zero => intro s vars h rest _ _; exact ⟨[], s, .done s, rfl⟩
+  | succ p ih =>
+    intro s vars h rest hs hst
+    obtain ⟨u, hu⟩ := hok (enterBody (top + 5) s) (by simpa [enterBody] using hs)
+      ⟨top + 5, by simp [enterBody], hB⟩ ⟨vars, h, rest, by simpa [enterBody] using hst⟩
+    obtain ⟨rest', hust⟩ := hu.frame vars h rest (by simpa [enterBody] using hst)
+    obtain ⟨ts, s', hp, hl⟩ := ih (countPost top u) (decCounter vars) h rest'
+      (by simpa [countPost] using hu.running) (by simp [countPost, hust, mapTop])
+    exact ⟨_ :: ts, s', .pass hu hp, by simp [hl]⟩
+
+/-- **the prologue contract** of a counted loop: run from the state `s0` just after `LOOP`, the
+prologue `pre` ends in `s1` with the loop frame on top, a number `n` in its hidden `counter`,
+and the evaluation stack as it was -/
+structure PreRun (img : Image) (pre : List Instr) (s0 s1 : State) (n : Rat) : Prop where
+  reach : ∃ k, run img k s0 = s1
+  running : s1.status = .running
+  pc : s1.pc = s0.pc + (pre.length : Int)
+  eval : s1.eval = s0.eval
+  frame : ∀ h rest, s0.stack = .loop [] h :: rest →
+    ∃ vars rest1 fl, s1.stack = .loop vars h :: rest1 ∧ Num (getLV vars .counter) n fl
+
+/-- the state after `LOOP` -/
+def afterLoop (s : State) : State :=
+  { s with pc := s.pc + 1, stack := .loop [] s.eval.length :: s.stack }
+
+/-- **count_loop (chain form).**  `repeat n` compiled with any prologue `pre` that leaves the
+number `n` in the hidden counter (`PreRun`) and any marker-free body `b`: if the body behaves
+(`BodyRun`) in each of the `passes n` passes the loop makes — `ts` are the states in which the
+passes start, `s'` the loop-top state after the last — then the VM, started at the `LOOP`
+instruction, reaches the instruction after `END_LOOP` in the state `exitLoop … s'`: `s'` with
+the loop frame popped and `result = False`.  The evaluation stack is what it was before the
+loop.  All that the loop's own code did between the body runs is `enterBody` (set `result`) and
+`countPost` (decrease the hidden counter): whatever is observable — trace, lights, registers
+other than `result`, variables — is what the `passes n` consecutive body runs made it.  The
+count is read once, by `pre`; nothing the body does to variables changes `passes n`. -/
+theorem C04_count_loop_chain (img : Image) (P0 : Nat) (pre b : List Instr)
+    (hc : CodeAt img P0 (loopCode pre counterTest (b ++ loopPost none)))
+    (s s1 : State) (n : Rat) (hs : s.status = .running) (hpc : s.pc = (P0 : Int))
+    (hpre : PreRun img pre (afterLoop s) s1 n) (ts : List State) (s' : State)
+    (hp : Passes (BodyRun img b) (enterBody (P0 + 1 + pre.length + 5)) (countPost (P0 + 1 + pre.length))
+      s1 ts s')
+    (hlen : ts.length = passes n) :
+    (∃ k, run img k s =
+      exitLoop (P0 + (loopCode pre counterTest (b ++ loopPost none)).length) s') ∧
+    (exitLoop (P0 + (loopCode pre counterTest (b ++ loopPost none)).length) s').eval = s.eval ∧
+    ∃ vars' rest', s'.stack = .loop vars' s.eval.length :: rest' := by
+  rw [loopCode_eq] at hc
+  have hL : img.code[P0]? = some .loop := by
+    have := hc.left.left.head; simpa using this
+  have hTail : CodeAt img (P0 + 1 + pre.length) (loopTail counterTest (b ++ loopPost none)) := by
+    have := hc.right
+    have e : P0 + ([Instr.loop] ++ pre).length = P0 + 1 + pre.length := by simp; omega
+    rw [e] at this
+    exact this
+  have h1 : run img 1 s = afterLoop s := by
+    rw [run_one _ _ hs, step_loop img s P0 hs hpc hL]
+    simp [afterLoop, hpc]
+  obtain ⟨⟨k1, hk1⟩, hr1, hpc1, hev1, hfr1⟩ := hpre
+  obtain ⟨vars, rest1, fl, hst1, hn⟩ := hfr1 s.eval.length s.stack rfl
+  obtain ⟨⟨k2, hk2⟩, hev2, hs2, hfr2⟩ := counted_loop_chain img (P0 + 1 + pre.length) b hTail s1 ts s' hp
+    vars s.eval.length rest1 n fl hr1 (by rw [hpc1]; simp [afterLoop, hpc]) hst1
+    (by rw [hev1]; rfl) hn hlen
+  have hlen2 : (loopCode pre counterTest (b ++ loopPost none)).length =
+      1 + pre.length + (loopTail counterTest (b ++ loopPost none)).length := by
+    rw [loopCode_eq]; simp; omega
+  refine ⟨⟨1 + k1 + k2, ?_⟩, ?_, hfr2⟩
+  · rw [run_add, run_add, h1, hk1, hk2, hlen2]
+    congr 1; omega
+  · simp only [exitLoop]; rw [hev2, hev1]; rfl
+
+
+theorem assembled_counted (pre b post : List Instr) :
+    unG (assembleLoop pre counterTest [] (ins b) post) = loopCode pre counterTest (b ++ post) := by
+  rw [assembleLoop_ins, unG_ins]; simp
+
+/-- **count_loop.**  The code of `repeat n` with a body that satisfies the body contract from
+every state (`BodyOk`): started at its `LOOP`, the VM makes exactly `passes n` passes — none
+when `n ≤ 0`, `⌈n⌉` otherwise — and ends just past `END_LOOP`, loop frame popped, evaluation
+stack restored; see `C04_count_loop_chain` for what the chain `Passes` says. -/
+theorem C04_count_loop (img : Image) (P0 : Nat) (pre b : List Instr)
+    (hc : CodeAt img P0 (unG (assembleLoop pre counterTest [] (ins b) (loopPost none))))
+    (s s1 : State) (n : Rat) (hs : s.status = .running) (hpc : s.pc = (P0 : Int))
+    (hpre : PreRun img pre (afterLoop s) s1 n) (hok : BodyOk img b) :
+    ∃ ts s', Passes (BodyRun img b) (enterBody (P0 + 1 + pre.length + 5))
+        (countPost (P0 + 1 + pre.length)) s1 ts s' ∧
+      ts.length = passes n ∧
+      (∃ k, run img k s =
+        exitLoop (P0 + (unG (assembleLoop pre counterTest [] (ins b) (loopPost none))).length) s') ∧
+      (exitLoop (P0 + (unG (assembleLoop pre counterTest [] (ins b) (loopPost none))).length) s').eval
+        = s.eval ∧
+      ∃ vars' rest', s'.stack = .loop vars' s.eval.length :: rest' := by
+  rw [assembled_counted] at hc ⊢
+  obtain ⟨vars, rest1, fl, hst1, hn⟩ := hpre.frame s.eval.length s.stack rfl
+  have hB : CodeAt img (P0 + 1 + pre.length + 5) b := by
+    rw [loopCode_eq] at hc
+    have := hc.right
+    have e : P0 + ([Instr.loop] ++ pre).length = P0 + 1 + pre.length := by simp; omega
+    rw [e] at this
+    exact (loopTail_parts this).2.2.1
+  obtain ⟨ts, s', hp, hl⟩ := count_chain_exists img (P0 + 1 + pre.length) b hB hok (passes n) s1 vars
+    s.eval.length rest1 hpre.running hst1
+  exact ⟨ts, s', hp, hl, C04_count_loop_chain img P0 pre b hc s s1 n hs hpc hpre ts s' hp hl⟩
+
+/-- a non-negative integer count `n` gives exactly `n` passes -/
+theorem C04_count_loop_nat (n : Nat) : passes (n : Rat) = n := passes_natCast n
+
+/-- a count that is zero or negative gives no pass -/
+theorem C04_count_loop_nonpos (n : Rat) (h : n ≤ 0) : passes n = 0 := passes_nonpos h
+
+/-- prologue of `repeat <literal>`: one `MOVEQ` into the hidden counter -/
+theorem preRun_literal (img : Image) (s0 : State) (pc h : Nat) (rest : List Frame) (v : Val) (n : Rat)
+    (fl : Bool) (hs : s0.status = .running) (hpc : s0.pc = (pc : Int))
+    (hc : CodeAt img pc (genRv (.lit v) (.to counter))) (hst : s0.stack = .loop [] h :: rest)
+    (hv : Num v n fl) :
+    PreRun img (genRv (.lit v) (.to counter)) s0
+      { s0 with pc := s0.pc + 1, stack := .loop [(.counter, v)] h :: rest } n := by
+  have hput : s0.put counter v = { s0 with stack := .loop [(.counter, v)] h :: rest } := by
+    simp only [counter, State.put, putLoopVar_eq hst]; rfl
+  have hc' : CodeAt img pc [Instr.moveq v counter] := by simpa [genRv] using hc
+  refine ⟨⟨1, ?_⟩, hs, by simp [genRv], rfl, ?_⟩
+  · rw [run_one _ _ hs, step_moveq img s0 pc v counter hs hpc hc'.head (by simp [counter])
+      (by rw [hput]; exact hs), hput]
+  · intro h' rest' hst'
+    rw [hst] at hst'
+    simp only [List.cons.injEq, Frame.loop.injEq, true_and] at hst'
+    obtain ⟨rfl, rfl⟩ := hst'
+    exact ⟨_, _, fl, rfl, by simpa [getLV_cons] using hv⟩
+
+/-- prologue of `repeat <variable>`: the variable is read ONCE, here -/
+theorem preRun_var (img : Image) (s0 : State) (pc h : Nat) (rest : List Frame) (x : String) (n : Rat)
+    (fl : Bool) (hs : s0.status = .running) (hpc : s0.pc = (pc : Int))
+    (hc : CodeAt img pc (genRv (.var x) (.to counter))) (hst : s0.stack = .loop [] h :: rest)
+    (hv : Num (s0.getVariable x) n fl) :
+    PreRun img (genRv (.var x) (.to counter)) s0
+      { s0 with pc := s0.pc + 1, stack := .loop [(.counter, s0.getVariable x)] h :: rest } n := by
+  have hput : s0.put counter (s0.read (.var x)) =
+      { s0 with stack := .loop [(.counter, s0.getVariable x)] h :: rest } := by
+    simp only [counter, State.put, putLoopVar_eq hst, State.read]; rfl
+  have hc' : CodeAt img pc [Instr.move (.var x) counter] := by simpa [genRv] using hc
+  refine ⟨⟨1, ?_⟩, hs, by simp [genRv], rfl, ?_⟩
+  · rw [run_one _ _ hs, step_move img s0 pc (.var x) counter hs hpc hc'.head
+      (by rw [hput]; exact hs), hput]
+  · intro h' rest' hst'
+    rw [hst] at hst'
+    simp only [List.cons.injEq, Frame.loop.injEq, true_and] at hst'
+    obtain ⟨rfl, rfl⟩ := hst'
+    exact ⟨_, _, fl, rfl, by simpa [getLV_cons] using hv⟩
+
+
 end Bardolph
